@@ -70,6 +70,36 @@ type c21State struct {
 	lastSeq  map[string]uint64   // ... and the sequence number it recorded for it
 	fails    []hbfs.Fail
 	last     string
+	// the block's persisted free queue: address -> number of the event whose persisted write put it
+	// on the stored Unallocated list ("freed"); addresses freed by the same write are tied
+	queued  map[string]int
+	hasBlk  bool
+	eventNo int
+}
+
+// syncQueue reads the stored free queue after an event and stamps newly queued addresses.
+func (s *c21State) syncQueue() {
+	s.eventNo++
+	if s.queued == nil {
+		s.queued = map[string]int{}
+	}
+	onQueue := map[string]bool{}
+	s.hasBlk = false
+	for _, vb := range s.w.blocks() {
+		s.hasBlk = true
+		for _, o := range vb.B.Unallocated {
+			ip := vb.B.OrdinalToIP(o).String()
+			onQueue[ip] = true
+			if _, ok := s.queued[ip]; !ok {
+				s.queued[ip] = s.eventNo
+			}
+		}
+	}
+	for ip := range s.queued {
+		if !onQueue[ip] {
+			delete(s.queued, ip)
+		}
+	}
 }
 
 func c21New(cooldown, naddr int) *c21State {
@@ -177,26 +207,25 @@ func c21Apply(s *c21State, e c21Ev) {
 				fail("reused-before-cooldown", fmt.Sprintf("%s re-assigned %.1fs after its release, cooldown is %ds", ip, elapsed.Seconds(), s.cooldown))
 			}
 		}
-		// longest-free first: no address that is certainly eligible may have been free for longer
-		for oip, om := range s.addrs {
-			if oip == ip || om.Alloc {
-				continue
-			}
-			eligible := !om.Released || now.Sub(om.FreeSince) >= cd+time.Second
-			if !eligible {
-				continue
-			}
-			longer := (!om.Released && m.Released) || (om.Released && m.Released && om.FreeSince.Before(m.FreeSince.Add(-time.Second)))
-			if longer {
-				since := "the beginning"
-				if om.Released {
-					since = fmt.Sprintf("%.0fs", now.Sub(om.FreeSince).Seconds())
+		// longest-free first, judged on the block's PERSISTED free queue: an address is "freed" when a
+		// stored write puts it on the Unallocated list (release only starts its cooldown); addresses
+		// freed by the same write are tied. The address handed out must come from the earliest
+		// batch on the stored queue, and an address that only leaves its cooldown during this very
+		// call may be used only if the stored queue was empty.
+		if s.hasBlk {
+			if myBatch, wasQueued := s.queued[ip]; wasQueued {
+				for oip, ob := range s.queued {
+					if oip != ip && ob < myBatch {
+						fail("reuse-not-longest-free-first:queued-address-passed-over", fmt.Sprintf("%s (on the stored free queue since event %d) was handed out although %s has been on it since event %d", ip, myBatch, oip, ob))
+					}
 				}
-				class := "never-used-address-passed-over"
-				if om.Released {
-					class = "released-addresses-reused-out-of-release-order"
+			} else if len(s.queued) > 0 {
+				var waiting []string
+				for oip := range s.queued {
+					waiting = append(waiting, oip)
 				}
-				fail("reuse-not-longest-free-first:"+class, fmt.Sprintf("%s (free for %.0fs) was handed out although %s has been free since %s", ip, now.Sub(m.FreeSince).Seconds(), oip, since))
+				sort.Strings(waiting)
+				fail("reuse-not-longest-free-first:just-cooled-address-jumped-the-queue", fmt.Sprintf("%s was not on the stored free queue (it left its cooldown during this call) yet was handed out before the queued %v", ip, waiting))
 			}
 		}
 		seq := w.allocs()[ip].Seq
@@ -282,6 +311,7 @@ func c21Apply(s *c21State, e c21Ev) {
 			}
 		}
 	}
+	s.syncQueue()
 	// model and store agree on who holds what
 	live := w.allocs()
 	for ip, m := range s.addrs {
@@ -332,6 +362,26 @@ func c21Key(s *c21State) string {
 	sort.Slice(rels, func(i, j int) bool { return rels[i].t.Before(rels[j].t) })
 	for _, r := range rels {
 		b.WriteString(" >" + r.ip)
+	}
+	// tie structure of the stored free queue (batch ranks)
+	var batches []int
+	for _, bn := range s.queued {
+		batches = append(batches, bn)
+	}
+	sort.Ints(batches)
+	rank := map[int]int{}
+	for _, bn := range batches {
+		if _, ok := rank[bn]; !ok {
+			rank[bn] = len(rank)
+		}
+	}
+	qips := make([]string, 0, len(s.queued))
+	for ip := range s.queued {
+		qips = append(qips, ip)
+	}
+	sort.Strings(qips)
+	for _, ip := range qips {
+		fmt.Fprintf(&b, " q[%s]=%d", ip, rank[s.queued[ip]])
 	}
 	for _, h := range []string{"a", "b"} {
 		ip := s.lastIP[h]
